@@ -1,1 +1,312 @@
-fn main(){}
+//! C05, thread configuration (thorough tier only): the derived iterator under `shuttle`'s
+//! controlled scheduler. Three workers pull from one `Arc<Mutex<Iter>>`, a clone is taken under
+//! the lock and moved to a freshly spawned thread that drains it, and an `Arc<Iter>` is read
+//! (`len`, `clone`) from all threads. The history, stamped with a global sequence number under
+//! the lock, is checked against the two-cursor model in lock order, plus exactly-once hand-out.
+//!
+//! The iterator has no interior mutability, so this configuration mostly confirms that thread
+//! interleavings produce the same histories the single-threaded scheduler explores; its content is
+//! that the scenario compiles (`Send`, `Sync` with a `!Send + !Sync` type argument) and that clones
+//! moved across threads stay independent.
+use shuttle::rand::Rng;
+use shuttle::scheduler::{PctScheduler, RandomScheduler};
+use shuttle::sync::{Arc, Mutex};
+use shuttle::{thread, Config, FailurePersistence, Runner};
+use std::collections::BTreeSet;
+use std::rc::Rc;
+use std::sync::atomic::{AtomicU64, Ordering};
+use strum::{EnumIter, IntoEnumIterator};
+
+#[derive(Debug, PartialEq)]
+pub struct NotSendSync(pub *const u8, pub Rc<u8>);
+impl Default for NotSendSync {
+    fn default() -> Self {
+        NotSendSync(std::ptr::null(), Rc::new(0))
+    }
+}
+
+#[derive(EnumIter, Debug, PartialEq)]
+pub enum G<T: Default> {
+    A,
+    B(T),
+    #[strum(disabled)]
+    Hidden(u8),
+    C { x: T, y: u8 },
+    D,
+    E(u8, T),
+}
+
+#[derive(EnumIter, Debug, PartialEq, Clone, Copy)]
+pub enum Plain {
+    P0,
+    #[strum(disabled)]
+    Off,
+    P1,
+    P2,
+    P3,
+    P4,
+    P5,
+    P6,
+}
+
+fn g_expected() -> Vec<G<NotSendSync>> {
+    vec![G::A, G::B(Default::default()), G::C { x: Default::default(), y: 0 }, G::D, G::E(0, Default::default())]
+}
+fn plain_expected() -> Vec<Plain> {
+    vec![Plain::P0, Plain::P1, Plain::P2, Plain::P3, Plain::P4, Plain::P5, Plain::P6]
+}
+
+#[derive(Clone, Debug)]
+struct Model {
+    lo: usize,
+    hi: usize,
+}
+impl Iterator for Model {
+    type Item = usize;
+    fn next(&mut self) -> Option<usize> {
+        if self.lo < self.hi {
+            self.lo += 1;
+            Some(self.lo - 1)
+        } else {
+            None
+        }
+    }
+}
+impl DoubleEndedIterator for Model {
+    fn next_back(&mut self) -> Option<usize> {
+        if self.lo < self.hi {
+            self.hi -= 1;
+            Some(self.hi)
+        } else {
+            None
+        }
+    }
+}
+
+static DISTINCT: std::sync::Mutex<BTreeSet<u64>> = std::sync::Mutex::new(BTreeSet::new());
+static ITERATIONS: AtomicU64 = AtomicU64::new(0);
+static EVENTS: AtomicU64 = AtomicU64::new(0);
+static CLONES_MOVED: AtomicU64 = AtomicU64::new(0);
+
+fn fnv(h: u64, v: u64) -> u64 {
+    let mut h = h;
+    for b in v.to_le_bytes() {
+        h ^= b as u64;
+        h = h.wrapping_mul(0x0000_0100_0000_01B3);
+    }
+    h
+}
+
+/// One scenario over an enum type. `expected` builds the generator-written item list inside the
+/// calling thread (items are `!Send`, they never leave the thread that produced them).
+fn scenario<E>(expected: fn() -> Vec<E>)
+where
+    E: IntoEnumIterator + PartialEq + std::fmt::Debug + 'static,
+    E::Iterator: Send + Sync + 'static,
+{
+    let n = expected().len();
+    // shared mutable iterator + the model + the history, all under one lock
+    struct Shared<I> {
+        it: I,
+        model: Model,
+        seq: u64,
+        history: Vec<(u64, u8, usize, Option<usize>)>,
+    }
+    let shared = Arc::new(Mutex::new(Shared { it: E::iter(), model: Model { lo: 0, hi: n }, seq: 0, history: Vec::new() }));
+    // shared read-only iterator (Sync): advanced a little first
+    let mut ro = E::iter();
+    let ro_front = shuttle::rand::thread_rng().gen_range(0..=n.min(2));
+    for _ in 0..ro_front {
+        ro.next();
+    }
+    let ro = Arc::new(ro);
+    let mut handles = Vec::new();
+    for w in 0..3u8 {
+        let shared = shared.clone();
+        let ro = ro.clone();
+        handles.push(thread::spawn(move || {
+            let exp = expected();
+            let id = |x: Option<E>| -> Option<usize> { x.map(|v| exp.iter().position(|e| *e == v).expect("alien item")) };
+            let mut rng = shuttle::rand::thread_rng();
+            let steps = rng.gen_range(1..=4);
+            let mut spawned = Vec::new();
+            for _ in 0..steps {
+                let op: u8 = rng.gen_range(0..5);
+                let k: usize = match rng.gen_range(0..6) {
+                    0 => usize::MAX,
+                    1 => n,
+                    _ => rng.gen_range(0..3),
+                };
+                {
+                    let mut g = shared.lock().unwrap();
+                    let (got, want) = match op {
+                        0 => (id(g.it.next()), g.model.next()),
+                        1 => (id(g.it.next_back()), g.model.next_back()),
+                        2 => (id(g.it.nth(k)), g.model.nth(k)),
+                        3 => (id(g.it.nth_back(k)), g.model.nth_back(k)),
+                        _ => {
+                            // take a clone under the lock and move it to a fresh thread that drains it
+                            let c = g.it.clone();
+                            let snap = g.model.clone();
+                            CLONES_MOVED.fetch_add(1, Ordering::Relaxed);
+                            spawned.push(thread::spawn(move || {
+                                let exp = expected();
+                                let got: Vec<usize> = c.map(|v| exp.iter().position(|e| *e == v).expect("alien item")).collect();
+                                let want: Vec<usize> = snap.collect();
+                                assert_eq!(got, want, "a clone moved to another thread did not drain the snapshot it was taken from");
+                            }));
+                            (None, None)
+                        }
+                    };
+                    assert_eq!(got, want, "worker {} op {} k {}: result differs from the model in lock order", w, op, k);
+                    let remaining = g.model.hi - g.model.lo;
+                    assert_eq!(g.it.len(), remaining, "len after op {}", op);
+                    g.seq += 1;
+                    let s = g.seq;
+                    g.history.push((s, op, k, got));
+                    EVENTS.fetch_add(1, Ordering::Relaxed);
+                }
+                // concurrent reads of the shared immutable iterator
+                assert_eq!(ro.len(), n - ro_front, "shared &Iter len changed");
+                let mut c = (*ro).clone();
+                assert_eq!(id(c.next()), if ro_front < n { Some(ro_front) } else { None });
+                thread::sleep(std::time::Duration::from_millis(0));
+            }
+            for s in spawned {
+                s.join().unwrap();
+            }
+        }));
+    }
+    for h in handles {
+        h.join().unwrap();
+    }
+    let g = shared.lock().unwrap();
+    // exactly-once hand-out across workers
+    let mut seen = BTreeSet::new();
+    let mut hh = 0xcbf2_9ce4_8422_2325u64;
+    for (s, op, k, got) in &g.history {
+        hh = fnv(fnv(fnv(fnv(hh, *s), *op as u64), *k as u64), got.map(|x| x as u64 + 1).unwrap_or(0));
+        if let Some(i) = got {
+            assert!(seen.insert(*i), "item #{} handed out twice", i);
+        }
+    }
+    // nth(k) consumes the items it skips, so handed-out + remaining can be less than n, never more
+    assert!(seen.len() + (g.model.hi - g.model.lo) <= n, "more items handed out than consumed");
+    DISTINCT.lock().unwrap().insert(hh);
+    ITERATIONS.fetch_add(1, Ordering::Relaxed);
+}
+
+fn both() {
+    scenario::<G<NotSendSync>>(g_expected);
+    scenario::<Plain>(plain_expected);
+}
+
+fn json_escape(s: &str) -> String {
+    s.replace('\\', "\\\\").replace('"', "\\\"").replace('\n', "\\n")
+}
+
+fn main() {
+    let args: Vec<String> = std::env::args().collect();
+    let mut seed: u64 = 1;
+    let mut iterations: usize = 5000;
+    let mut partial: Option<String> = None;
+    let mut replay: Option<String> = None;
+    let mut replay_dir = "/verif/replays".to_string();
+    let mut i = 1;
+    while i < args.len() {
+        match args[i].as_str() {
+            "--seed" => {
+                seed = args[i + 1].parse().unwrap();
+                i += 1
+            }
+            "--iterations" => {
+                iterations = args[i + 1].parse().unwrap();
+                i += 1
+            }
+            "--partial" => {
+                partial = Some(args[i + 1].clone());
+                i += 1
+            }
+            "--replay" => {
+                replay = Some(args[i + 1].clone());
+                i += 1
+            }
+            "--replay-dir" => {
+                replay_dir = args[i + 1].clone();
+                i += 1
+            }
+            o => {
+                eprintln!("unknown argument {}", o);
+                std::process::exit(2)
+            }
+        }
+        i += 1;
+    }
+    if let Some(path) = replay {
+        // the replay file is JSON with a "schedule" string field (written below)
+        let text = std::fs::read_to_string(&path).expect("replay file");
+        let key = "\"schedule\": \"";
+        let st = text.find(key).expect("schedule field") + key.len();
+        let en = st + text[st..].find('"').expect("end of schedule");
+        let sched = text[st..en].replace("\\n", "\n");
+        let r = std::panic::catch_unwind(|| shuttle::replay(both, &sched));
+        match r {
+            Err(_) => {
+                println!("REPLAY-FAILS oracle=thread_history signature=threads:history ");
+                std::process::exit(1)
+            }
+            Ok(()) => {
+                println!("REPLAY-PASSES");
+                std::process::exit(0)
+            }
+        }
+    }
+    let t0 = std::time::Instant::now();
+    let sched_dir = format!("{}/tmp/shuttle-{}", replay_dir, seed);
+    let _ = std::fs::remove_dir_all(&sched_dir);
+    std::fs::create_dir_all(&sched_dir).unwrap();
+    let mut failed: Option<String> = None;
+    for (name, pct) in [("random", false), ("pct", true)] {
+        let mut cfg = Config::new();
+        cfg.failure_persistence = FailurePersistence::File(Some(sched_dir.clone().into()));
+        let r = std::panic::catch_unwind(|| {
+            if pct {
+                Runner::new(PctScheduler::new_from_seed(seed, 3, iterations / 2), cfg).run(both)
+            } else {
+                Runner::new(RandomScheduler::new_from_seed(seed, iterations / 2), cfg).run(both)
+            }
+        });
+        if r.is_err() {
+            failed = Some(name.to_string());
+            break;
+        }
+    }
+    let wall = t0.elapsed().as_secs_f64();
+    let mut candidates = String::new();
+    if let Some(which) = &failed {
+        // shuttle persisted the failing schedule as schedule000.txt
+        let sched = std::fs::read_to_string(format!("{}/schedule000.txt", sched_dir)).unwrap_or_default();
+        let fname = format!("{}/C05-threads-{}-{}.json", replay_dir, seed, which);
+        let body = format!(
+            "{{\n \"property\": \"C05\",\n \"kind\": \"threads\",\n \"oracle\": \"thread_history\",\n \"signature\": \"threads:history\",\n \"seed\": {},\n \"scheduler\": \"{}\",\n \"schedule\": \"{}\"\n}}\n",
+            seed,
+            which,
+            json_escape(sched.trim())
+        );
+        std::fs::write(&fname, body).unwrap();
+        println!("CANDIDATE property=C05 signature=threads:history oracle=thread_history replay={}", fname);
+        candidates = format!("{{\"signature\": \"threads:history\", \"oracle\": \"thread_history\", \"replay\": \"{}\", \"case\": \"threads\"}}", fname);
+    }
+    let _ = std::fs::remove_dir_all(&sched_dir);
+    let distinct = DISTINCT.lock().unwrap().len();
+    let its = ITERATIONS.load(Ordering::Relaxed);
+    println!("sim_threads seed={} scenario_executions={} events={} distinct_lock_order_histories={} clones_moved={} failed={:?} wall={:.2}s", seed, its, EVENTS.load(Ordering::Relaxed), distinct, CLONES_MOVED.load(Ordering::Relaxed), failed, wall);
+    if let Some(p) = partial {
+        let body = format!(
+            "{{\n \"property\": \"C05\", \"engine\": \"sim_threads\", \"profile\": \"release\", \"corpus\": \"threads\", \"mode\": \"shuttle random+pct\",\n \"seed\": {}, \"runs\": {}, \"steps\": {}, \"distinct_nontrivial_traces\": {}, \"state_cover\": 0, \"log_hash\": \"n/a\", \"wall_s\": {:.3},\n \"counters\": {{\"threads_scenario_executions\": {}, \"threads_clones_moved_across_threads\": {}, \"threads_locked_events\": {}}},\n \"violation_total\": {}, \"candidates\": [{}], \"samples\": [],\n \"extra\": {{\"schedulers\": [\"RandomScheduler\", \"PctScheduler(depth 3)\"], \"workers\": 3, \"enums\": [\"G<NotSendSync>\", \"Plain\"]}}\n}}\n",
+            seed, its, EVENTS.load(Ordering::Relaxed), distinct, wall, its, CLONES_MOVED.load(Ordering::Relaxed), EVENTS.load(Ordering::Relaxed), if failed.is_some() { 1 } else { 0 }, candidates
+        );
+        std::fs::write(p, body).unwrap();
+    }
+    std::process::exit(if failed.is_some() { 1 } else { 0 })
+}
